@@ -562,6 +562,9 @@ func TestVerifC02(t *testing.T) {
 		if vfThorough() && i%3 == 2 {
 			nodes = 5
 		}
-		c02OneRun(t, rep, uint64(i), nodes, vfScale(4, 6), vfScale(7, 20), 4)
+		if fin, dump := clu8Guard(20*time.Minute, func() { c02OneRun(t, rep, uint64(i), nodes, vfScale(4, 6), vfScale(7, 20), 4) }); !fin {
+			rep.Note("C02: a run did not finish within 20 min and was abandoned; goroutines: %s", dump)
+			rep.Count("runs-abandoned-by-watchdog")
+		}
 	}
 }
